@@ -276,6 +276,42 @@ func c08(c *core.Ctx) {
 			state = append(state, cst.Field(i))
 		}
 		writtenOrFlagged(c, "RunContext.Flush:success⇒context.data-replaced", flushFn, flushM, state, c.Fn(st+".RunContext.load"))
+		// what is loaded is what will be written back: after CandidateCache.Decode the write cursor stands at the end of the records that were
+		// decoded — the length it was given, or the length of the very buffer it was given — never at the end of a buffer it made larger
+		// (Encode hands out CandidateBuf[:Cur]; slots beyond the decoded records are zeros, and the next load panics on them)
+		dec := c.Fn(st + ".CandidateCache.Decode")
+		curF := c.FieldVar(st+".CandidateCache", "Cur")
+		nCur := 0
+		for _, stt := range storesToO8(dec, curF) {
+			nCur++
+			ok := true
+			val := stt.Val
+			// `Cur = Cap` right after `Cap = len(buf)`: look through the field
+			if f := core.FieldOf(loadAddr(val)); f != nil {
+				for _, s2 := range storesToO8(dec, f) {
+					if core.Dominates(s2, stt) {
+						val = s2.Val
+					}
+				}
+			}
+			sl := core.Slice(val)
+			fromInput := sl[dec.Params[1]] || sl[dec.Params[2]]
+			for v := range sl {
+				switch x := v.(type) {
+				case *ssa.MakeSlice:
+					ok = false
+				case *ssa.Phi:
+					// a buffer variable that is either the parameter or something else
+					for _, e := range x.Edges {
+						if _, isMk := e.(*ssa.MakeSlice); isMk {
+							ok = false
+						}
+					}
+				}
+			}
+			c.Check("CandidateCache.Decode:Cur=end-of-decoded-records"+seqSuffix(nCur), "value-flow", ok && fromInput, stt.Pos(), "the cursor after a load is computed from the input (its length), not from a buffer Decode allocated")
+		}
+		c.Floor("CandidateCache.Decode/Cur-stores", nCur, 1)
 	})
 
 	// -----------------------------------------------------------------------------------------------------------------
@@ -604,4 +640,12 @@ func sortedNames(m map[string]bool) string {
 	}
 	sort.Strings(ks)
 	return strings.Join(ks, ", ")
+}
+
+// loadAddr: the address a load reads (nil when v is not a load).
+func loadAddr(v ssa.Value) ssa.Value {
+	if u, ok := v.(*ssa.UnOp); ok && u.Op == token.MUL {
+		return u.X
+	}
+	return nil
 }
